@@ -469,11 +469,20 @@ def e2e_case(rng, cid):
     count = {}
     flips = rng.random() < 0.3
     removed_backend = None
+    has_front = True
     for _ in range(rng.randint(5, 14)):
         if rng.random() < 0.03:
             ops.append(["bounce"])            # DeactivateListener + ActivateListener under live flows
         if rng.random() < 0.04:
             ops.append(["updlistener", rng.choice([8, 64, 100, 1500])])   # resized receive buffer: oversized stays dropped
+        if rng.random() < 0.05:               # UpdateUdpListener: the cap (0 = auto) and / or an rx size above buffer_size
+            ops.append(["updlistener", rng.choice([-1, -1, 64, 1500, 20000]), -1, -1, rng.choice([-1, 0, 1, 2, 3, 4])])
+        if rng.random() < 0.07:               # RemoveUdpFrontend / AddUdpFrontend under live flows
+            ops.append(["rmfront" if has_front else "addfront"])
+            has_front = not has_front
+        if rng.random() < 0.04 and not (responses or requests or pp):
+            ops.append(["rmcluster"])         # RemoveCluster: unrouted until an AddCluster / AddUdpFrontend / listener patch
+            wp = 0
         if rng.random() < 0.04 and not (responses or requests or pp):
             ops.append(["recluster_noudp"])   # AddCluster without a udp block: back to SOURCE_IP, no caps
             wp = 0
@@ -604,7 +613,10 @@ LEVEL_TEXT = ("Machine-checked proof (Coq 8.16) over executable models of (1) th
               "live established flow of the incarnation it was opened for and is connected to that flow's backend, a routed "
               "source's datagrams can only be written to its own flow's socket, NAT "
               "return reaches only that incarnation's client, close_all_flows leaks no socket, write queues never "
-              "duplicate or reorder. Both models are tied to /repo on every run: source translator, differential run of "
+              "duplicate or reorder; and (3) the routing lifecycle of a listener (AddUdpFrontend / RemoveUdpFrontend / "
+              "AddCluster / RemoveCluster / UpdateUdpListener, coq/C19/Routing.v): which configuration, cap and rx size "
+              "each request commits into the manager, an unrouted listener forwards nothing, cluster and frontend "
+              "commute, a listener patch spares live flows. Both models are tied to /repo on every run: source translator, differential run of "
               "the real UdpManager and WriteQueue against the extracted core model, and the black-box scenarios (real "
               "worker thread, loopback sockets) replayed through the extracted shell model; the property's own oracles are "
               "evaluated on the implementation in both tiers.")
